@@ -14,5 +14,5 @@ func main() {
 			p.MaxSteps = 12
 		}
 		return p
-	}, 250, 4000, "From HI Require Import Corr.Corr_C11.")
+	}, 220, 4000, "From HI Require Import Corr.Corr_C11.")
 }
